@@ -14,6 +14,13 @@ CHECKS = {
  'C14': dict(level='fault_enumeration', ref='3/C14', technique='fault injection (LD_PRELOAD constructor keyed on a shared per-role counter; strace syscall injection for fork) + offline checker over the process-tree event log and directory snapshots',
              text='The finite space command shape {-E,-S,-c,link} x {-o,default} x 1..3 inputs over {.c,.s,.o} is walked completely; for every legal shape every pipeline step (k-th cc1, k-th as, ld) is made to fail by exit status and by signal, with the outputs absent or pre-existing with a sentinel; natural failures (syntax error, missing/directory input, unwritable output), illegal shapes, concurrent drivers in one directory and (thorough) failing fork() are added. The checker decides exit status, temp-file conservation (mkstemp set = unlinked set, nothing left), sentinel integrity, directory diff and cross-unlink from the recorded events.',
              note='faults fire at process start of the k-th child; partial-progress crashes of as/ld and a driver killed from outside are not modelled; GNU as/ld own-output handling on their own failures is not charged to the driver'),
+
+ 'C01': dict(level='exploration', ref='3/C01', technique='differential execution monitor: raw result bytes + type of every observed expression vs executable Python C11 model == gcc == clang; operands from run-time tables in a gcc-compiled object',
+             text='Each observation runs chibicc-compiled code on operands read from run-time tables and records the object representation and the type (size, signedness) of the result; the oracle is a Python model of C11 6.3.1/6.5 cross-checked against gcc and clang on the same run. The finite dimension operator x (lhs type, rhs type) x context is enumerated completely (grid), operand values are boundary + random samples, composites are random trees: exploration.',
+             note='gcc/clang -O0 as references; plain char signed, arithmetic >> of negative values, modular conversion to signed (psABI/gcc); two open findings on _Bool ++/-- carried by exact key'),
+ 'C07': dict(level='exploration', ref='3/C07', technique='self-consistency monitor (constant context vs run-time twin on volatile operands in one chibicc-compiled run) + Python C11 model == gcc == clang; cc1 wait-status monitor (ASan/UBSan build) for division by zero in every constant position',
+             text='Random constant expressions over literals of every C11 literal type, sizeof, enum constants and all operators are placed in 11 constant-demanding positions and evaluated once more at run time on volatile copies of the same operands; disagreement between the two, or with the model, is a violation. Floating constant expressions are compared bit-exactly static vs run time. 143 undefined-expression x position cells are run through the sanitizer build and must end in a located diagnostic.',
+             note='gcc/clang -O0 as references; INT_MIN/-1 treated as undefined (any non-crash outcome accepted)'),
 }
 REASON_WIP = 'check not built yet in this session (planned, see DESIGN.md section 3); will be claimed once its monitor is silent on the unchanged tree'
 
